@@ -35,6 +35,7 @@ const (
 	MDelete              // map: delete(m, k)
 	MSend                // chan: ch <- v
 	MClose               // chan: close(ch)
+	MInsert              // map: m[k] = v for a key that is NOT in the map (may or may not be visited)
 )
 
 type Mut struct {
@@ -205,6 +206,11 @@ func (w *world) apply(c *C10Case, m Mut, closed *bool) bool {
 		case MDelete:
 			if _, ok := w.m[m.I*7]; ok {
 				delete(w.m, m.I*7)
+				return true
+			}
+		case MInsert:
+			if _, ok := w.m[m.I*7]; !ok {
+				w.m[m.I*7] = m.V
 				return true
 			}
 		}
@@ -519,7 +525,9 @@ func mapInvariant(c *C10Case, h hist.H) string {
 		}
 	}
 	seen := map[string]bool{}
+	optional := map[string]bool{} // created while the loop ran: may be produced or skipped
 	ended := false
+	lastCur := "" // key named by the Current calls since the latest advance
 	for _, e := range h {
 		switch {
 		case e.K == hist.Pan:
@@ -539,16 +547,23 @@ func mapInvariant(c *C10Case, h hist.H) string {
 			if cur != v {
 				return "key " + k + " visited with value " + v + ", map holds " + cur
 			}
-			seen[k] = true
+			if seen[k] && lastCur != k {
+				return "key " + k + " visited twice"
+			}
+			seen[k], lastCur = true, k
 		case e.K == hist.Ret && e.Op == "MoveNext" && e.OK == 1:
-			// the next Current tells which key; duplicates are detected below
+			lastCur = "" // the next Current tells which key (repeated Current calls name it again)
 		case e.K == hist.Ret && e.Op == "MoveNext" && e.OK == 0:
 			ended = true
 		case e.K == hist.Mut:
 			k := keyOf(int(e.V[0]))
 			if e.Op == fmt.Sprintf("mut%d", MDelete) {
 				delete(model, k)
+				delete(seen, k) // re-created later it is a new entry, which may be produced again
 			} else {
+				if e.Op == fmt.Sprintf("mut%d", MInsert) {
+					optional[k] = true
+				}
 				val := int(e.V[1])
 				if c.Kind == "map-any" && val%2 == 0 {
 					model[k] = show(nil)
@@ -561,7 +576,7 @@ func mapInvariant(c *C10Case, h hist.H) string {
 	if ended {
 		var missing []string
 		for k := range model {
-			if !seen[k] {
+			if !seen[k] && !optional[k] {
 				missing = append(missing, k)
 			}
 		}
@@ -634,17 +649,21 @@ func evalC10(c *C10Case) (class string, exp, obs hist.H, at int) {
 	}
 	real, visits, _ := playC10(c, true)
 	isMap := c.Kind == "map" || c.Kind == "map-any"
-	if isMap && len(c.Elems) > 1 {
+	inserts := false
+	for _, st := range c.Steps {
+		for _, m := range st.Muts {
+			inserts = inserts || m.K == MInsert
+		}
+	}
+	if isMap && (len(c.Elems) > 1 || inserts) {
 		// order-insensitive oracle, applied to the real iterator AND (as a self-check of the
 		// oracle) to Go's own range
 		ref, rv, _ := playC10(c, false)
-		if msg := mapInvariant(c, ref); msg != "" || dupVisit(rv) != "" {
-			panic("C10 oracle self-check failed on native range: " + msg + dupVisit(rv))
+		_, _ = rv, visits
+		if msg := mapInvariant(c, ref); msg != "" {
+			panic("C10 oracle self-check failed on native range: " + msg)
 		}
 		if msg := mapInvariant(c, real); msg != "" {
-			return "map-invariant: " + msg, ref, real, 0
-		}
-		if msg := dupVisit(visits); msg != "" {
 			return "map-invariant: " + msg, ref, real, 0
 		}
 		return "", ref, real, -1
@@ -733,6 +752,13 @@ func genSteps(r *prng.R, kind string, n int) []Step {
 				}
 			case "map", "map-any":
 				mu = Mut{K: []MutK{MSet, MDelete, MDelete}[r.Intn(3)], I: r.Intn(n + 1), V: 100 + r.Intn(50)}
+				if kind == "map" && r.Chance(1, 3) {
+					// entries created during the iteration (also re-created after a delete): each
+					// "may be produced during the iteration or may be skipped"; several at once
+					for x := 1 + r.Intn(6); x > 0; x-- {
+						st.Muts = append(st.Muts, Mut{K: MInsert, I: r.Intn(n + 12), V: 100 + r.Intn(50)})
+					}
+				}
 			case "chan":
 				mu = Mut{K: []MutK{MSend, MSend, MSend, MClose}[r.Intn(4)], V: 100 + r.Intn(50)}
 			default:
